@@ -206,6 +206,10 @@ def gen_tie_case(rng, n=None, order=None):
     spec["m"] = rng.choice([1, 2, 2, 3])
     spec["states"] = [{"seed": rng.randrange(1, 2 ** 31), "m": rng.choice([1, 2, 2, 3]), "coeff": rng.choice([1, 1, 1, 2, -3])}
                       for _ in range(rng.randint(2, 3))]
+    if rng.random() < 0.3:              # a common prefactor != 1: TTNS.add keeps it (equal-prefactor branch)
+        c = rng.choice([2, -3])
+        for st in spec["states"]:
+            st["coeff"] = c
     spec["ops"] = [gen_terms(rng, spec, dofs_of(spec), True, nterms=rng.randint(1, 3)) for _ in range(rng.randint(1, 2))]
     seq = []
     for _ in range(rng.randint(1, 4)):
@@ -364,8 +368,8 @@ def tracked_coeffs(case, nsteps):
     c = case["states"][0].get("coeff", 1)
     out = []
     for step in case["seq"][:nsteps]:
-        if step[0] == "add":
-            c = 1
+        if step[0] == "add" and c != case["states"][step[1]].get("coeff", 1):
+            c = 1                       # different prefactors are folded into the root; equal ones are kept
         out.append(c)
     return out
 
@@ -381,12 +385,14 @@ def coq_case(case, res, expected_steps, tag):
     prev = "%s_s0" % tag
     names = []
     coeff = case["states"][0].get("coeff", 1)          # prefactor of the running state, as the library tracks it
+    coeffs_model = []
     for k, step in enumerate(case["seq"][:len(res["results"])]):
         if step[0] == "add":
             cb = case["states"][step[1]].get("coeff", 1)
-            e = ("tadd ZRing %s %s_s%d" % (prev, tag, step[1])) if (coeff == 1 and cb == 1) else \
-                ("tadd_coeff ZRing (%d) (%d) %s %s_s%d" % (coeff, cb, prev, tag, step[1]))
-            coeff = 1
+            e = "snd (tadd_state ZRing Z.eqb (%d) (%d) %s %s_s%d)" % (coeff, cb, prev, tag, step[1])
+            coeffs_model.append("fst (tadd_state ZRing Z.eqb (%d) (%d) %s %s_s%d)" % (coeff, cb, prev, tag, step[1]))
+            if coeff != cb:
+                coeff = 1
         elif step[0] == "scale":
             e = "tscale ZRing (%d) %s" % (step[1], prev)
         else:
@@ -394,8 +400,12 @@ def coq_case(case, res, expected_steps, tag):
         prev = "%s_q%d" % (tag, k)
         lines.append("Definition %s : ttree ZRing := frz (%s)." % (prev, e))
         names.append(prev)
+    # last group: the model's prefactor after every add against the library's
+    addc = [c for st, c in zip(case["seq"], res.get("coeffs") or []) if st[0] == "add"]
+    pairs = [(cm, ci) for cm, ci in zip(coeffs_model, addc) if ci is not None]
     lines.append("Eval vm_compute in (" + " ++ ".join("zdiff (tdump %s) [%s]" % (n, "; ".join(str(x) for x in e))
-                                                       for n, e in zip(names, expected_steps)) + ").")
+                                                       for n, e in zip(names, expected_steps))
+                 + " ++ zdiff [%s] [%s])." % ("; ".join(cm for cm, _ in pairs), "; ".join(str(ci) for _, ci in pairs)))
     return "\n".join(lines) + "\n"
 
 
@@ -538,15 +548,15 @@ def run(ctx):
             evals += 1
             nsteps = len(r["results"])
             if r.get("coeffs") != tracked_coeffs(case, nsteps):
-                tie_bad.append({"what": "prefactor (coeff) of a result differs from the model's bookkeeping", "case": case,
+                tie_bad.append({"what": "prefactor (coeff) of a result differs from the model's bookkeeping (tadd_state)", "op": "add", "case": case,
                                 "impl": r.get("coeffs"), "model": tracked_coeffs(case, nsteps)})
                 continue
-            if got != [0] * nsteps:
+            if got != [0] * (nsteps + 1):
                 # one zdiff per step: 0 = equal, otherwise kind, position, model value, implementation value
                 k, i = 0, 0
                 while i < len(got) and got[i] == 0:
                     k, i = k + 1, i + 1
-                op = case["seq"][k][0] if k < nsteps else "?"
+                op = case["seq"][k][0] if k < nsteps else "add"      # last group = prefactors after add
                 tie_bad.append({"what": "model and implementation node tensors differ", "op": op, "step": k, "case": case,
                                 "zdiff [kind(1 value,2 model longer,3 impl longer); position; model; impl]": got[i:i + 4]})
                 continue
